@@ -59,6 +59,42 @@ class Ctx:
     def note(self, s):
         self.notes.append(s)
 
+    def memo(self, name, fn):
+        """verdict of an expensive whole-function fold, kept beside the fact file of this very tree (the directory is keyed by the
+        tree's content hash) and keyed by the content of rules/*.py: several properties share such a verdict, each check is its own
+        process.  fn() must return JSON-serialisable data (a tuple comes back as a tuple)."""
+        if not hasattr(self, "_memo"):
+            self._memo = {}
+        if name in self._memo:
+            return self._memo[name]
+        import hashlib
+        h = hashlib.sha256()
+        rd = os.path.dirname(os.path.abspath(__file__))
+        for fn_ in sorted(os.listdir(rd)):
+            if fn_.endswith(".py"):
+                with open(os.path.join(rd, fn_), "rb") as fh:
+                    h.update(fn_.encode() + b"\0" + fh.read())
+        path = os.path.join(os.path.dirname(self.facts().path), "memo-%s-%s.json" % (name, h.hexdigest()[:16]))
+        res = None
+        if os.path.exists(path):
+            try:
+                with open(path) as fh:
+                    res = json.load(fh)
+            except (OSError, ValueError):
+                res = None
+        if res is None:
+            res = fn()
+            try:
+                with open(path + ".%d.tmp" % os.getpid(), "w") as fh:
+                    json.dump(res, fh)
+                os.replace(path + ".%d.tmp" % os.getpid(), path)
+            except OSError:
+                pass
+        if isinstance(res, list):
+            res = tuple(res)
+        self._memo[name] = res
+        return res
+
 
 def need(cond, rule, anchor, why=""):
     if not cond:
